@@ -100,7 +100,13 @@ func VerifH_factory_streaming() {
 	}
 	verifrt.Assert(int(ct[0]) == hl, "header length byte")
 
-	r, err := p.NewDecryptingReader(bytes.NewReader(ct), aad)
+	// the ciphertext source: bytes.Reader, a reader that returns its last bytes together with
+	// io.EOF (as io.Reader allows), or one byte per call
+	var src io.Reader = bytes.NewReader(ct)
+	if mode := verifrt.Choice("src", 3); mode > 0 {
+		src = &modeReader{data: ct, mode: mode}
+	}
+	r, err := p.NewDecryptingReader(src, aad)
 	verifrt.Assert(err == nil, "NewDecryptingReader")
 	got, err := readAll(r, [...]int{1, 2, 8}[verifrt.Choice("buf", 3)])
 	if ks.Enabled(producer) {
@@ -111,4 +117,31 @@ func VerifH_factory_streaming() {
 		verifrt.Assert(len(got) == 0, "no plaintext from a rejected stream")
 	}
 	verifrt.Reach("end")
+}
+
+// modeReader: mode 1 returns the final bytes together with io.EOF, mode 2 returns at most one
+// byte per call (both legal io.Reader behaviours).
+type modeReader struct {
+	data []byte
+	off  int
+	mode int
+}
+
+func (s *modeReader) Read(p []byte) (int, error) {
+	if s.off >= len(s.data) {
+		return 0, io.EOF
+	}
+	n := len(p)
+	if s.mode == 2 && n > 1 {
+		n = 1
+	}
+	if n > len(s.data)-s.off {
+		n = len(s.data) - s.off
+	}
+	copy(p, s.data[s.off:s.off+n])
+	s.off += n
+	if s.mode == 1 && s.off == len(s.data) {
+		return n, io.EOF
+	}
+	return n, nil
 }
